@@ -165,48 +165,50 @@ Section Rodrigues.
       end.
     Definition zeros93 : list (list F) := repeat [0; 0; 0] 9.
 
+    (* generic branch: jac = (domegadvar2 @ dvar2dvar) @ dvardR, rows re-laid out, transposed *)
+    Definition rod_inv_jac_generic (s c theta : F) (w : vec3 F) : list (list F) :=
+      let h := rod_half in
+      let vth := 1 / (n2 O * s) in
+      let dtheta_dtr := m1 / s in
+      let dvth_dtheta := (- vth) * c / s in
+      let d1 := h * dvth_dtheta * dtheta_dtr in
+      let d2 := h * dtheta_dtr in
+      let dvardR :=
+        [[0; 0; 0; 0; 0; 1; 0; m1; 0];
+         [0; 0; m1; 0; 0; 0; 1; 0; 0];
+         [0; 1; 0; m1; 0; 0; 0; 0; 0];
+         [d1; 0; 0; 0; d1; 0; 0; 0; d1];
+         [d2; 0; 0; 0; d2; 0; 0; 0; d2]] in
+      let dvar2dvar :=
+        [[vth; 0; 0; vx w; 0];
+         [0; vth; 0; vy w; 0];
+         [0; 0; vth; vz w; 0];
+         [0; 0; 0; 0; 1]] in
+      let domegadvar2 :=
+        [[theta; 0; 0; vx w * vth];
+         [0; theta; 0; vy w * vth];
+         [0; 0; theta; vz w * vth]] in
+      let ab := lmatmul_cols domegadvar2
+                  (match dvar2dvar with [b0; b1; b2; b3] => lcols4 b0 b1 b2 b3 | _ => [] end) in
+      let abc := lmatmul_cols ab
+                  (match dvardR with [c0; c1; c2; c3; c4] => lcols5 c0 c1 c2 c3 c4 | _ => [] end) in
+      match map row_T33 abc with
+      | [j0; j1; j2] => lcols3 j0 j1 j2
+      | _ => []
+      end.
+    (* s < 1e-5 and c > 0: jac[1,2] = jac[5,0] = jac[6,1] = -0.5 ; jac[2,1] = jac[3,2] = jac[7,0] = 0.5 *)
+    Definition rod_inv_jac_identity : list (list F) :=
+      let h := rod_half in
+      [[0; 0; 0]; [0; 0; - h]; [0; h; 0];
+       [0; 0; h]; [0; 0; 0]; [- h; 0; 0];
+       [0; - h; 0]; [h; 0; 0]; [0; 0; 0]].
+
     Definition rodrigues_inv_jac_of_proj (p : mat3 F) : list (list F) :=
       let s := rod_inv_s p in
       let c := rod_inv_c p in
-      let theta := rod_inv_theta p in
-      let w := rod_antisym p in
-      let h := rod_half in
       if nltb O s rod_small then
-        if nltb O 0 c then
-          (* jac[1,2] = jac[5,0] = jac[6,1] = -0.5 ; jac[2,1] = jac[3,2] = jac[7,0] = 0.5 *)
-          [[0; 0; 0]; [0; 0; - h]; [0; h; 0];
-           [0; 0; h]; [0; 0; 0]; [- h; 0; 0];
-           [0; - h; 0]; [h; 0; 0]; [0; 0; 0]]
-        else zeros93
-      else
-        let vth := 1 / (n2 O * s) in
-        let dtheta_dtr := m1 / s in
-        let dvth_dtheta := (- vth) * c / s in
-        let d1 := h * dvth_dtheta * dtheta_dtr in
-        let d2 := h * dtheta_dtr in
-        let dvardR :=
-          [[0; 0; 0; 0; 0; 1; 0; m1; 0];
-           [0; 0; m1; 0; 0; 0; 1; 0; 0];
-           [0; 1; 0; m1; 0; 0; 0; 0; 0];
-           [d1; 0; 0; 0; d1; 0; 0; 0; d1];
-           [d2; 0; 0; 0; d2; 0; 0; 0; d2]] in
-        let dvar2dvar :=
-          [[vth; 0; 0; vx w; 0];
-           [0; vth; 0; vy w; 0];
-           [0; 0; vth; vz w; 0];
-           [0; 0; 0; 0; 1]] in
-        let domegadvar2 :=
-          [[theta; 0; 0; vx w * vth];
-           [0; theta; 0; vy w * vth];
-           [0; 0; theta; vz w * vth]] in
-        let ab := lmatmul_cols domegadvar2
-                    (match dvar2dvar with [b0; b1; b2; b3] => lcols4 b0 b1 b2 b3 | _ => [] end) in
-        let abc := lmatmul_cols ab
-                    (match dvardR with [c0; c1; c2; c3; c4] => lcols5 c0 c1 c2 c3 c4 | _ => [] end) in
-        match map row_T33 abc with
-        | [j0; j1; j2] => lcols3 j0 j1 j2
-        | _ => []
-        end.
+        if nltb O 0 c then rod_inv_jac_identity else zeros93
+      else rod_inv_jac_generic s c (rod_inv_theta p) (rod_antisym p).
     Definition rodrigues_inv_jac (m : mat3 F) : list (list F) := rodrigues_inv_jac_of_proj (proj m).
   End Inverse.
 
